@@ -17,7 +17,7 @@ ASSUMPTIONS = ["ground truth by construction + reference multiset equality", "PY
 SUMMARY_KEYS = ["pairs", "equal_text_differs", "near_misses"]
 CRASH_IS_VIOLATION = False
 KINDS = ["permute", "reinsert", "reinsert", "rename", "duplicate", "drop", "move", "swap", "comma", "space", "multiplicity",
-         "int-vs-str", "other"]
+         "int-vs-str", "other", "hash-twin"]
 
 
 def plan(tier, seed):
@@ -46,7 +46,14 @@ def colliding_names(rng, n, strings):
 def gen_case(rng, ctx):
     strings = rng.random() < 0.5
     n = rng.randint(1, 8)
-    if rng.random() < 0.6:
+    special = rng.random()
+    if not strings and special < 0.15:
+        # ints whose CPython hashes coincide: hash(-1) == hash(-2); x and x + (2^61 - 1)
+        pool = [-1, -2, 1, 1 + (2 ** 61 - 1), 5, 5 + (2 ** 61 - 1), -3, 0, 2 ** 61 - 1, 7]
+        names = rng.sample(pool, min(n, len(pool)))
+    elif not strings and special < 0.25:
+        names = rng.sample(range(-20, 20), n)
+    elif rng.random() < 0.6:
         names = colliding_names(rng, n, strings)
     else:
         _, names = gen.element_names(rng, n, "str" if strings else "bigint")
@@ -94,6 +101,14 @@ def derive(case):
         B = [[["x", "y"], ["w"]]] if kind == "comma" else [[["xy"], ["w"]]]
     elif kind == "int-vs-str":
         B = [[[str(e) for e in b] for b in r] for r in B]
+    elif kind == "hash-twin":
+        # replace one int by another int with the same CPython hash (near miss by construction)
+        flat = [e for r in B for b in r for e in b if isinstance(e, int)]
+        if flat:
+            victim = rng.choice(flat)
+            twin = {-1: -2, -2: -1}.get(victim, victim + (2 ** 61 - 1) if victim >= 0 else victim - (2 ** 61 - 1))
+            if twin not in flat:
+                B = [[[twin if e == victim else e for e in b] for b in r] for r in B]
     elif kind == "other":
         _, B = gen.dataset(rng, classes="D2 D3", names=ref.universe(A) or [0], n=len(ref.universe(A)) or 1, m=len(A))
     return A, B, name_a, name_b
